@@ -191,7 +191,7 @@ def transform_tasks(tier):
     return ts
 
 
-prop('C05', 'Each option performs only its documented rewrite, only where it is valid', 'other', transform_tasks, ['C05/', 'C01/minify/'],
+prop('C05', 'Each option performs only its documented rewrite, only where it is valid', 'proof', transform_tasks, ['C05/', 'C01/minify/'],
      replay='props.replay_transforms:replay_transforms',
      trusted=['recursive visit by contract (structural induction over the tree)', 'tree-level contracts instead of compiled-code bisimulation',
               'ast.walk / iter_child_nodes / iter_fields enumerate the tree (external)'],
@@ -199,7 +199,9 @@ prop('C05', 'Each option performs only its documented rewrite, only where it is 
                  'RemoveLiteralStatements/RemoveDebug are compared pointwise (arbitrary statement of an arbitrary-length list) with the documented '
                  'predicate, including the non-empty rule and the Module exception; can_remove, CombineImports (loop invariant on the pending run), '
                  'return None, object base, exception brackets (builtin, not redefined, whitelisted, no arguments, directly under raise), annotations '
-                 '(per option, never in dataclass/NamedTuple/TypedDict), posargs; and minify() runs each stage exactly under its own option. Level "other": one open known finding (KF-18: a field declared inside a block of a dataclass body) is outside what the per-node contract can see.')
+                 '(per option, never in dataclass/NamedTuple/TypedDict), posargs; and minify() runs each stage exactly under its own option. "The class" of an annotated assignment is the '
+                 'namespace of its statement (a field may sit in a block of the class body; KF-18, repaired in 9ef57d1). The proof is at tree level: '
+                 'equality with the -O compiled code for asserts/__debug__ is argued from the documented rewrite, not from bytecode.')
 
 
 def sweep(only, tier, label, extra=()):
